@@ -9,9 +9,9 @@ MUTS = {
  "a propagated value pins every dimension of the output type (unknown dims / rank rewritten)":
    [(N, "                if prop.check():\n                    var._value = prop\n",
         "                if prop.check():\n                    var._value = prop\n                    _t = var.type\n                    if hasattr(_t, 'shape') and hasattr(prop.value, 'shape') and (_t.shape is None or any(not isinstance(d, int) for d in _t.shape)):\n                        var.type = type(_t)(_t.dtype, tuple(prop.value.shape))\n")],
- "a propagated value overrides the element type of the output (dtype of the computed array)":
+ "a propagated value fixes the rank of an output whose inferred rank is unknown (onnxruntime backend only)":
    [(N, "                if prop.check():\n                    var._value = prop\n",
-        "                if prop.check():\n                    var._value = prop\n                    _t = var.type\n                    if hasattr(_t, 'shape') and hasattr(prop.value, 'shape') and _t.shape is not None and len(_t.shape) != prop.value.ndim:\n                        var.type = type(_t)(_t.dtype, None)\n")],
+        "                if prop.check():\n                    var._value = prop\n                    from . import _value_prop as _vp\n                    _t = var.type\n                    if _vp._VALUE_PROP_BACKEND == _vp.ValuePropBackend.ONNXRUNTIME and hasattr(_t, 'shape') and hasattr(prop.value, 'shape') and (_t.shape is None or None in _t.shape):\n                        var.type = type(_t)(_t.dtype, tuple(prop.value.shape))\n")],
 }
 for name, edits in MUTS.items():
     if len(sys.argv) > 1 and not any(a in name for a in sys.argv[1:]): continue
